@@ -102,7 +102,7 @@ func c17Complete(c *Ctx, w *tWorld, scen int, kind string) {
 				if err != nil || !ok {
 					break
 				}
-				if id, ok := rowID(rb); ok {
+				if id, ok := tRowID(rb); ok {
 					got[id]++
 				}
 			}
@@ -201,7 +201,7 @@ func c17File(c *Ctx, sh *shard, w *tWorld, f tFile, kind string, scen int, cfgDe
 			if !ok {
 				break
 			}
-			id, ok := rowID(rb)
+			id, ok := tRowID(rb)
 			if !ok || w.json[id] == nil {
 				fail(fmt.Sprintf("block %d holds a row that was never ingested: %q", i, rb))
 				return
@@ -229,7 +229,7 @@ func c17File(c *Ctx, sh *shard, w *tWorld, f tFile, kind string, scen int, cfgDe
 			coqStrs(rowsJSON), coqList(entTerms), coqFilters(&want)))
 		blockDescs = append(blockDescs, map[string]any{"rows": len(rowsJSON), "compression": string(b.Compression), "row_data_size": b.RowDataSize, "filter_size": b.BloomFilterSize, "partition": b.PartitionID})
 		c.dist("c17_compression", coqComp(b.Compression))
-		c.dist("c17_rows_per_block", bucket(len(rowsJSON)))
+		c.dist("c17_rows_per_block", tBucket(len(rowsJSON)))
 	}
 	wantFile, _ := rebuildFilters(allEntries, md.BloomFalsePositiveRate)
 	obs := coqMetaJ(md.BlockFilterRegionOffset, md.BlockFilterRegionSize, ffs, md.BloomEntryCounts, md.DataBlocks)
@@ -239,10 +239,10 @@ func c17File(c *Ctx, sh *shard, w *tWorld, f tFile, kind string, scen int, cfgDe
 	sh.add(c, term, desc)
 	c.count([]string{"C17"}, string(data), len(md.DataBlocks) > 0, desc)
 	c.dist("c17_file_kind", kind)
-	c.dist("c17_blocks_per_file", bucket(len(md.DataBlocks)))
+	c.dist("c17_blocks_per_file", tBucket(len(md.DataBlocks)))
 }
 
-func bucket(n int) string {
+func tBucket(n int) string {
 	switch {
 	case n <= 1:
 		return fmt.Sprint(n)
